@@ -7,10 +7,10 @@ reg(Check(
         "one consumer per queue (the way subscribe.go uses it); any number of producers",
         "the uint32 duplicate counter does not wrap (fewer than 2^32 coalesced insertions of one pending item)",
         "a non-blocking channel send/receive and close(chan) are atomic steps (Go channel operations are linearizable); the mutex makes insert/next/Len/Close critical sections",
-        "liveness is stated as enabledness (a waiting consumer has an enabled step); goroutine fairness is the Go scheduler's",
+        "liveness (every locked insert delivered; Close/Cancel make Next return; drain then closed) is proved for runs in which the consumer and, for coalesced inserts, the producers are weakly fair; that goroutines are scheduled fairly is the Go runtime's",
         "an Insert that overlaps Close (closed check passed before Close ran) may be accepted after the consumer was told the queue is closed; the property covers insertions that completed before the close (C11_insert_close_overlap_example)",
     ],
     modelled=["coalesce/coalesce.go: NewQueue, Insert, insert, Next, next, Len, Close, IsClosed (as a transition system whose atomic steps are the critical sections and channel operations)"],
 ),
-    level_text="Theorems in coq/Props/C11.v state the property over a transition system of coalesce.Queue for all schedules of any number of producers, one consumer, Close and cancellation (refinement to an abstract coalescing queue, conservation, drain-before-closed, refusal after close, no lost wake-up as enabledness); the model is tied to coalesce/coalesce.go by (E) all short single-goroutine operation sequences + random ones, (S) forced schedules through the verif hook points under a barrier scheduler, every recorded step validated against the transition system inside Coq, and a stress family, with the abstract-queue specification applied to the implementation's own observations.",
-    level_note="Trusted: Coq kernel + vm_compute, the hand-written model (validated on the explored sequences and schedules), the Go harness and its barrier scheduler (goroutine states read from runtime.Stack). One consumer; liveness as enabledness; uint32 wrap ignored.")
+    level_text="Theorems in coq/Props/C11.v state the property over a transition system of coalesce.Queue for all schedules of any number of producers, one consumer, Close and cancellation (refinement to an abstract coalescing queue, conservation, drain-before-closed, refusal after close, no lost wake-up as enabledness, and delivery / wake-up by Close and Cancel / drain-then-closed on weakly fair runs, with a refutation for an unbuffered wake-up channel); the model is tied to coalesce/coalesce.go by (E) all short single-goroutine operation sequences + random ones, (S) forced schedules through the verif hook points under a barrier scheduler, every recorded step validated against the transition system inside Coq, and a stress family, with the abstract-queue specification applied to the implementation's own observations.",
+    level_note="Trusted: Coq kernel + vm_compute, the hand-written model (validated on the explored sequences and schedules), the Go harness and its barrier scheduler (goroutine states read from runtime.Stack). One consumer; liveness under weak fairness; uint32 wrap ignored.")
